@@ -15,14 +15,17 @@ open VelaVerif.Gen.SrcNumericUtil
 theorem round_up_py (a b : Int) (hb : 0 < b) :
     round_up (.py a) (.py b) = .ok (.py ((a + b - 1) / b * b)) := by
   py_exec [round_up, if_neg]
+  try py_congr
 
 theorem round_down_py (a b : Int) (hb : 0 < b) :
     round_down (.py a) (.py b) = .ok (.py (a / b * b)) := by
   py_exec [round_down, if_neg]
+  try py_congr
 
 theorem round_up_divide_py (a b : Int) (hb : 0 < b) :
     round_up_divide (.py a) (.py b) = .ok (.py ((a + b - 1) / b)) := by
   py_exec [round_up_divide, if_neg]
+  try py_congr
 
 theorem round_up_zero (a : Int) : round_up (.py a) (.py 0) = .error .zerodiv := by
   py_exec [round_up]
